@@ -7,7 +7,7 @@ RULE = ("decision grid enumerated completely: 9 request methods x status codes x
         "{absent,chunked,Chunked,'gzip, chunked','chunked, gzip','gzip',identity,non-text} (x Location field present/absent for 3xx); quick: boundary statuses "
         "{101,199,200,204,205,299,300,301,304,305,307,399,400,999}; the same decision preceded by an interim 1xx response (with or without its own "
         "framing fields) returned on the same flow; the same decision for HTTP/1.0 requests and with Connection: close on the request / "
-        "on the response; thorough: additionally every status 101..999 with 5x4 header "
+        "on the response, and for a response that refuses an Expect: 100-continue body; a reduced grid through the single-call API (Call::try_response, Call::into_body); thorough: additionally every status 101..999 with 5x4 header "
         "classes. Each cell: head -> try_response -> proceed -> body mode. Status 100 is C11's. oracle = transcription of the "
         "statement's rule list. non-trivial = every cell (each is a distinct decision); distinct = distinct cells")
 TRUSTED_BASE = COMMON_TRUSTED_BASE
@@ -54,7 +54,7 @@ INTERIMS = [b"HTTP/1.1 103 Early Hints\r\nLink: </s.css>\r\n\r\n", b"HTTP/1.1 10
             b"HTTP/1.1 199 Misc\r\nContent-Length: 9\r\n\r\n", b"HTTP/1.1 101 Switching\r\nTransfer-Encoding: chunked\r\n\r\n"]
 
 
-def build(method, status, version, cl, te, loc=True, interim=None, reqv="1.1", req_close=False, resp_close=False):
+def build(method, status, version, cl, te, loc=True, interim=None, reqv="1.1", req_close=False, resp_close=False, refused=False):
     fields = []
     if cl is not None:
         fields.append((b"Content-Length", cl))
@@ -66,7 +66,12 @@ def build(method, status, version, cl, te, loc=True, interim=None, reqv="1.1", r
         fields.insert(0, (b"Connection", b"close"))
     head = render_response_head(version, status, b"X", fields)
     rh = [("connection", "close")] if req_close else []
-    if method in BODY_METHODS:
+    if refused:
+        # Expect: 100-continue refused by this very response while the client awaits the go-ahead: the body is never sent, the
+        # response is then read in RecvResponse and framed like any other
+        ops = [op_new(method, reqv, "http", "a.test", "/", rh + [("content-length", "2"), ("expect", "100-continue")]), "proceed", "write_head #4096", "proceed",
+               "raw_try100 %s" % hx(head), "proceed"]
+    elif method in BODY_METHODS:
         ops = [op_new(method, reqv, "http", "a.test", "/", rh + [("content-length", "0")]), "proceed", "write_head #4096", "proceed", "write_body x #0", "proceed"]
     else:
         ops = [op_new(method, reqv, "http", "a.test", "/", rh), "proceed", "write_head #4096", "proceed"]
@@ -78,7 +83,21 @@ def build(method, status, version, cl, te, loc=True, interim=None, reqv="1.1", r
     return {"ops": ops, "meta": {"cell": [method, status, version, cl.hex() if cl is not None else None, te.hex() if te is not None else None],
                                  "location": bool(loc and 300 <= status <= 399), "interim": interim is not None,
                                  "variant": ("request HTTP/%s" % reqv if reqv != "1.1" else "") + (" request Connection: close" if req_close else "") +
-                                            (" response Connection: close" if resp_close else "")}}
+                                            (" response Connection: close" if resp_close else "") + (" Expect refused by this response" if refused else "")}}
+
+
+def build_call(method, status, version, cl, te):
+    fields = []
+    if cl is not None:
+        fields.append((b"Content-Length", cl))
+    if te is not None:
+        fields.append((b"Transfer-Encoding", te))
+    if 300 <= status <= 399:
+        fields.append((b"Location", b"/n"))
+    head = render_response_head(version, status, b"X", fields)
+    ops = call_recv_prelude(method) + ["raw_try_response %s" % hx(head), "q_is_finished", "proceed"]
+    return {"ops": ops, "meta": {"cell": [method, status, version, cl.hex() if cl is not None else None, te.hex() if te is not None else None],
+                                 "location": 300 <= status <= 399, "api": "call"}}
 
 
 def generate(rng, tier, mult):
@@ -100,6 +119,11 @@ def generate(rng, tier, mult):
     for m, s, v, cl, te in itertools.product(METHODS, [200, 204, 301, 302, 307, 404], ["1.0", "1.1"], CLS_SMALL, TES_SMALL):
         out.append(build(m, s, v, cl, te, resp_close=True))
         out.append(build(m, s, v, cl, te, req_close=True))
+    for m, s, v, cl, te in itertools.product(BODY_METHODS, [200, 204, 301, 304, 403, 417], ["1.0", "1.1"], CLS_SMALL, TES_SMALL):
+        out.append(build(m, s, v, cl, te, refused=True))
+    # the single-call API: Call::try_response decides the same framing; Call::into_body answers "no body" exactly for the no-body cases
+    for m, s, v, cl, te in itertools.product(METHODS, [101, 200, 204, 299, 301, 304, 404], ["1.0", "1.1"], CLS_SMALL, TES_SMALL):
+        out.append(build_call(m, s, v, cl, te))
     if tier == "thorough":
         rest = [s for s in range(101, 1000) if s not in BOUNDARY]
         for m, s, v, cl, te in itertools.product(METHODS, rest, ["1.0", "1.1"], CLS_SMALL, TES_SMALL):
@@ -130,6 +154,18 @@ def oracle(script, obs):
     o = obs[i]
     cell = "%s %d HTTP/%s cl=%r te=%r%s" % (m, s, v, cl, te, ("" if script["meta"].get("location", True) or not 300 <= s <= 399 else " (no Location field)") + (" after an interim 1xx on the same flow" if script["meta"].get("interim") else "") + (" [%s]" % script["meta"]["variant"].strip() if script["meta"].get("variant") else ""))
     if exp[0] == "dontcare":
+        return []
+    if script["meta"].get("api") == "call":
+        cell += " [single-call API]"
+        if exp[0] == "err":
+            return [] if o.startswith("err") else ["%s: non-numeric Content-Length not an error: %s" % (cell, o[:60])]
+        if not o.startswith("some "):
+            return ["%s: head rejected: %s" % (cell, o[:60])]
+        if obs[i + 1] != "true":
+            return ["%s: Call::is_finished false after the head" % cell]
+        want = "none" if exp[0] == "nobody" else "call RecvBody"
+        if obs[i + 2] != want:
+            return ["%s: Call::into_body gave %s, expected %s (mode %s)" % (cell, obs[i + 2], want, exp[0])]
         return []
     if exp[0] == "err":
         if not o.startswith("err"):
